@@ -94,7 +94,7 @@ class C12(HistoryProperty):
     CAP = {"quick": 14, "thorough": 60}
 
     def gen_case(self, rng, tier):
-        cfg = gen.swarm_cfg(rng, off=("shape_change",), on=("dsclass",))
+        cfg = gen.swarm_cfg(rng, off=("shape_change",), on=("dsclass", "fapp"))
         cfg["stateful_callables"] = rng.random() < 0.5  # callback OBJECTS that a failed call leaves dirty
         if cfg["stateful_callables"]:
             cfg["callbacks"] = True
